@@ -67,3 +67,7 @@ TEXTS = {
         "technique": "Lean 4 proof (serve over concatenated frame lists) + correspondence run incl. malformed stream",
     },
 }
+
+from propspec import FRAGMENTS  # noqa: E402
+for _p, _j in FRAGMENTS.items():
+    TEXTS[_p] = _j["text"]
